@@ -199,8 +199,25 @@ var variants = []variant{
 // greyVariants: what "the document's issuer" is, is itself open there.
 var greyVariants = []string{"duplicate-member-asked-last", "duplicate-member-asked-first", "member-name-case"}
 
-func discoverCase(run *ev.Run, k int) {
-	r := run.CaseRand(3, k)
+// docCase is one generated discovery answer: the issuer asked for, the document served, how it is served.
+type docCase struct {
+	asked, base string
+	name        string // variant
+	issuerJSON  string
+	haveMember  bool
+	greyCase    bool
+	body        string
+	status      int
+	srv         *docServer
+	override    string
+	// reference reading of the document
+	docIssuer string
+	isString  bool
+	differs   bool
+}
+
+// genDoc draws the document of a discover / entry-point case (the order of the draws is part of the replay contract).
+func genDoc(r *rand.Rand) *docCase {
 	asked := pick(r, askedPool...)
 	nv := len(variants)
 	vi := r.IntN(nv + len(greyVariants) + 6) // the tail: extra weight for "exact"
@@ -278,19 +295,32 @@ func discoverCase(run *ev.Run, k int) {
 	if r.IntN(10) < 3 {
 		override = pick(r, "https://metadata.example/custom/openid-configuration", base+"/.well-known/oauth-authorization-server", "https://op.example/.well-known/openid-configuration")
 	}
+	d := &docCase{asked: asked, base: base, name: name, issuerJSON: issuerJSON, haveMember: haveMember, greyCase: greyCase, body: body, status: status, srv: srv, override: override}
 
 	// ---- reference: what is the issuer member of the document, and does it differ? ----
 	var generic map[string]json.RawMessage
-	docIssuer, isString := "", false
 	if json.Unmarshal([]byte(body), &generic) == nil {
 		if raw, ok := generic["issuer"]; ok { // exact member name; for duplicates encoding/json keeps the last one
 			var sv string
 			if json.Unmarshal(raw, &sv) == nil && string(raw) != "null" {
-				docIssuer, isString = sv, true
+				d.docIssuer, d.isString = sv, true
 			}
 		}
 	}
-	differs := !isString || docIssuer != asked
+	d.differs = !d.isString || d.docIssuer != asked
+	return d
+}
+
+func (d *docCase) witness() map[string]any {
+	return map[string]any{"asked_issuer": d.asked, "document": d.body, "variant": d.name, "http_status": d.status, "content_type": d.srv.ctype,
+		"well_known_override": d.override, "requests_seen": d.srv.urls, "document_issuer_member": d.docIssuer, "document_issuer_is_string": d.isString}
+}
+
+func discoverCase(run *ev.Run, k int) {
+	r := run.CaseRand(3, k)
+	d := genDoc(r)
+	asked, name, issuerJSON, haveMember, greyCase, status, srv, override, base := d.asked, d.name, d.issuerJSON, d.haveMember, d.greyCase, d.status, d.srv, d.override, d.base
+	differs := d.differs
 
 	var cfg *oidc.DiscoveryConfiguration
 	var err error
@@ -304,8 +334,7 @@ func discoverCase(run *ev.Run, k int) {
 			cfg, err = client.Discover(context.Background(), asked, hc)
 		}
 	})
-	wit := map[string]any{"asked_issuer": asked, "document": body, "variant": name, "http_status": status, "content_type": srv.ctype,
-		"well_known_override": override, "requests_seen": srv.urls, "document_issuer_member": docIssuer, "document_issuer_is_string": isString}
+	wit := d.witness()
 	idx := int64(caseBaseDiscover + k)
 	if pi != nil {
 		if pi.InRepo {
